@@ -60,6 +60,9 @@ def families(tier, seed):
     # deterministic witnesses of the two known findings (independent of VERIF_SEED)
     out.append(dict(name='closed-loop monitor rabin games: witness of known finding F3 (seed 1, games 1..10)', run=gm.monitor('rabin', 1, 10, 'cudd'), label='bounded'))
     out.append(dict(name='closed-loop monitor rabin games: witness of known finding stale-hold (seed 2, games 1..48)', run=gm.monitor('rabin', 2, 48, 'cudd'), label='bounded'))
+    for i in range(4):
+        out.append(dict(name=f'closed-loop monitor rabin games, implementation constructed again on the same automaton after its liveness lists changed length, part {i}',
+                        run=gm.rebuild_same_automaton('rabin', seed * 100 + 70 + i, (60 if tier == 'quick' else 500), 'cudd' if i < 3 else 'autoref'), label='bounded'))
     out.append(dict(name='closed-loop monitor rabin games (autoref)', run=gm.monitor('rabin', seed * 100 + 50, n // 8, 'autoref'), label='bounded'))
     from contracts import optdiff as _od
     out.append(dict(name='same results with assert statements stripped (python -O), section C01', run=_od.family('C01'), label='bounded'))
